@@ -6,6 +6,7 @@ func init() {
 	vfHarnesses["C16_constructors"] = vfhC16Constructors
 	vfHarnesses["C16_force"] = vfhC16Force
 	vfHarnesses["C16_carry"] = vfhC16Carry
+	vfHarnesses["C16_carry_multi"] = vfhC16CarryMulti
 }
 
 // vfLineF: a LineString of n points with arbitrary ordinates of type ct.
@@ -153,5 +154,73 @@ func vfhC16Carry() {
 	// XY-only results
 	vfAssert(ls.Envelope().AsGeometry().CoordinatesType() == DimXY, "Envelope geometry is XY")
 	vfAssert(p.Centroid().CoordinatesType() == DimXY || p.Centroid().IsEmpty(), "Centroid is XY")
+	vfReach("end")
+}
+
+// Structure-preserving operations on Multi* geometries and collections with
+// empty members keep the coordinate type of the geometry and of every member,
+// and carry Z/M with XY.
+func vfhC16CarryMulti() {
+	ct := vfCT("ct")
+	c0, c1 := vfCoords("c0", ct), vfCoords("c1", ct)
+	pts := []Point{NewPoint(c0), NewEmptyPoint(ct), NewPoint(c1)}
+	switch vfInt("empty-at", 0, 2) {
+	case 0:
+		pts[0], pts[1] = pts[1], pts[0]
+	case 2:
+		pts[2], pts[1] = pts[1], pts[2]
+	}
+	mp := NewMultiPoint(pts)
+	l := vfLineF("l", 2, ct)
+	mls := NewMultiLineString([]LineString{l, LineString{}.ForceCoordinatesType(ct)})
+	gc := NewGeometryCollection([]Geometry{mp.AsGeometry(), NewEmptyPoint(ct).AsGeometry(), l.AsGeometry()})
+	id := func(p XY) XY { return p }
+	check := func(g Geometry, what string) {
+		vfAssert(g.CoordinatesType() == ct, what)
+		switch {
+		case g.IsMultiPoint():
+			m := g.MustAsMultiPoint()
+			for i := 0; i < m.NumPoints(); i++ {
+				vfAssert(m.PointN(i).CoordinatesType() == ct, what)
+			}
+		case g.IsMultiLineString():
+			m := g.MustAsMultiLineString()
+			for i := 0; i < m.NumLineStrings(); i++ {
+				vfAssert(m.LineStringN(i).CoordinatesType() == ct, what)
+			}
+		case g.IsGeometryCollection():
+			c := g.MustAsGeometryCollection()
+			for i := 0; i < c.NumGeometries(); i++ {
+				vfAssert(c.GeometryN(i).CoordinatesType() == ct, what)
+			}
+		}
+	}
+	switch vfInt("op", 0, 5) {
+	case 0:
+		t := mp.TransformXY(id)
+		check(t.AsGeometry(), "MultiPoint.TransformXY keeps the coordinate type everywhere")
+		vfAssert(vfGeomBits(t.AsGeometry(), mp.AsGeometry()), "and, for the identity, every ordinate")
+	case 1:
+		t := mls.TransformXY(id)
+		check(t.AsGeometry(), "MultiLineString.TransformXY keeps the coordinate type everywhere")
+		vfAssert(vfGeomBits(t.AsGeometry(), mls.AsGeometry()), "and, for the identity, every ordinate")
+	case 2:
+		t := gc.TransformXY(id)
+		check(t.AsGeometry(), "GeometryCollection.TransformXY keeps the coordinate type everywhere")
+		vfAssert(vfGeomBits(t.AsGeometry(), gc.AsGeometry()), "and, for the identity, every ordinate")
+	case 3:
+		check(mp.Reverse().AsGeometry(), "MultiPoint.Reverse keeps the coordinate type everywhere")
+		check(mls.Reverse().AsGeometry(), "MultiLineString.Reverse keeps the coordinate type everywhere")
+		check(gc.Reverse().AsGeometry(), "GeometryCollection.Reverse keeps the coordinate type everywhere")
+	case 4:
+		d := gc.Dump()
+		for _, g := range d {
+			vfAssert(g.CoordinatesType() == ct, "Dump keeps the coordinate type of every part")
+		}
+		vfAssert(gc.AsGeometry().DumpCoordinates().CoordinatesType() == ct, "DumpCoordinates keeps the coordinate type")
+	default:
+		check(mp.ForceCoordinatesType(ct).AsGeometry(), "forcing the same type changes nothing")
+		vfAssert(vfGeomBits(mp.ForceCoordinatesType(ct).AsGeometry(), mp.AsGeometry()), "forcing the same type changes nothing")
+	}
 	vfReach("end")
 }
